@@ -111,10 +111,14 @@ def domain(ctx):
             cases.append({"shape": s, "cls": "btn", "mult": mult})
         if shapes.size(s) <= (7 if ctx.quick else 8):
             cases.append({"shape": s, "cls": "expr", "mult": (1.0, 1.0)})
+    # beyond the general bound: every FULL binary tree (0 or 2 children) with 11, 13 (and 15 in thorough) nodes
+    for m in ([11, 13] if ctx.quick else [11, 13, 15]):
+        for s in shapes.full_shapes(m):
+            cases.append({"shape": s, "cls": "btn", "mult": (1.0, 1.0), "full": True})
     for _ in range(150 if ctx.quick else 3000):
         cases.append({"shape": random_shape(rng, rng.randint(n + 1, 18)), "cls": rng.choice(["btn", "expr"]), "mult": rng.choice(MULTS)})
-    return cases, ("all %d shapes with <= %d nodes as plain nodes (three multiplier pairs up to 5 nodes) and as expression-shaped nodes; seeded random shapes up to 18 nodes; "
-                   "first call, second call, fresh mirrored tree" % (len(shapes.shapes_upto(n)), n))
+    return cases, ("all full binary trees with 11, 13%s nodes; all %d shapes with <= %d nodes as plain nodes (three multiplier pairs up to 5 nodes) and as expression-shaped nodes; seeded random shapes up to 18 nodes; "
+                   "first call, second call, fresh mirrored tree" % ("" if ctx.quick else ", 15", len(shapes.shapes_upto(n)), n))
 
 
 def run(ctx, cases=None):
@@ -149,7 +153,7 @@ def run(ctx, cases=None):
         s = tuple_shape(c["shape"])
         for x in cl:
             failing[x] = failing.get(x, 0) + 1
-            if shapes.size(s) > bound and x in KNOWN_CLAUSES:
+            if shapes.size(s) > bound and x in KNOWN_CLAUSES and not (c.get("full") and shapes.size(s) <= 15):
                 beyond += 1
                 continue
             res.violations.append(Violation("C18|%s|%s" % (x, canon(s)), "layout of %s shape %s x%s: %s" % (c["cls"], canon(s), c["mult"], x),
